@@ -666,6 +666,7 @@ fn hostile_outcome(c: &HostileCase) -> Outcome {
                 Mutation::AppendRandom { .. } => "mut-append",
                 Mutation::ManyProps { .. } => "mut-many-props",
                 Mutation::GreetingField { .. } => "mut-greeting-field",
+                Mutation::CommandFlood { .. } => "mut-command-flood",
             }
             .to_string(),
         );
@@ -738,6 +739,34 @@ fn stage_catalogue(t: Tier) -> Vec<StageCase> {
         }
         refcodec::encode_frame(&mut s, b"x", false, false);
         hostile_parts.push(s);
+    }
+    // floods of VALID commands and of messages a socket ignores: whatever the socket does per
+    // ignored item (skip, log, reply) must not accumulate stack or memory per item
+    for n in [600usize, 4096, 30_000] {
+        for which in 0..4 {
+            let mut s = vec![];
+            for i in 0..n {
+                match which {
+                    0 => s.extend_from_slice(&refcodec::encode_command(b"READY", &[])),
+                    1 => {
+                        let mut body = vec![4u8];
+                        body.extend_from_slice(b"PING");
+                        body.extend_from_slice(&[0, 0, (i % 251) as u8]);
+                        refcodec::encode_frame(&mut s, &body, false, true);
+                    }
+                    2 => {
+                        let mut body = vec![9u8];
+                        body.extend_from_slice(b"SUBSCRIBE");
+                        body.push(b'a' + (i % 26) as u8);
+                        refcodec::encode_frame(&mut s, &body, false, true);
+                    }
+                    // a one-frame message: REP and REQ treat it as malformed and go on
+                    _ => refcodec::encode_frame(&mut s, b"", false, false),
+                }
+            }
+            s.extend_from_slice(&refcodec::encode_message(&[vec![], b"after the flood".to_vec()]));
+            hostile_parts.push(s);
+        }
     }
     // envelope-rule violations and oddities as traffic
     for m in [vec![vec![]], vec![vec![], vec![]], vec![b"x".to_vec()], vec![vec![0u8]], vec![vec![1u8]], vec![vec![2u8, 3]], vec![vec![1u8], vec![1u8]], vec![vec![9u8; 300]; 3]] {
